@@ -226,6 +226,21 @@ func checkC11(w *Worker) {
 		n := 1 + x.Choose(k+2, "input:maxdepth")
 		api := x.Choose(2, "input:api")
 		c11Quantities(book, x.Choose(2, "input:quantities")*2)
+		// a recipe may list the same ingredient on several of its lines: that is one more line, not one more level
+		switch x.Choose(3, "input:repeated-lines") {
+		case 1:
+			for i := range book {
+				if len(book[i].Ings) > 0 {
+					book[i].Ings = append(book[i].Ings, book[i].Ings[0])
+				}
+			}
+		case 2:
+			for i := range book {
+				if n := len(book[i].Ings); n > 0 {
+					book[i].Ings = append([]absIng{book[i].Ings[n-1], book[i].Ings[n-1]}, book[i].Ings...)
+				}
+			}
+		}
 		c11Body(x, book, n, api, "graph")
 	})
 	// acyclic books on 4 (thorough 5) recipes in topological numbering: every subset of the later
